@@ -300,6 +300,31 @@ def parallel_eval(plugin, cases, kind="both", procs=None):
 
 
 # ---------------------------------------------------------------- findings
+def anchors_hash(plugin):
+    files = list(getattr(plugin, "ANCHORS", []))
+    if not files:
+        return None
+    h = hashlib.sha256()
+    for f in sorted(files):
+        pth = os.path.join(REPO, f)
+        try:
+            h.update(open(pth, "rb").read())
+        except OSError:
+            h.update(b"<missing>")
+    return h.hexdigest()[:16]
+
+
+def anchors_differ(plugin):
+    cur = anchors_hash(plugin)
+    if cur is None:
+        return False
+    try:
+        pins = json.load(open(os.path.join(ROOT, "harness", "pins.json")))
+    except OSError:
+        return False
+    return pins.get(plugin.ID) not in (None, cur)
+
+
 def load_known():
     p = os.path.join(ROOT, "known_findings.json")
     if not os.path.exists(p):
@@ -423,6 +448,12 @@ def main(plugin) -> int:
         if "witness" in k and k["witness"] is not None:
             corpus.append(k["witness"])
     cases = corpus + list(plugin.cases(args.tier, rng))
+    # source-change escalation: when an anchored file differs from the version the model was
+    # last validated against (harness/pins.json), explore with extra seeds (never a verdict by itself)
+    anchors_changed = anchors_differ(plugin)
+    if anchors_changed and args.tier == "quick" and not getattr(plugin, "NO_ESCALATION", False):
+        for extra_seed in (1, 2, 3):
+            cases += list(plugin.cases(args.tier, random.Random(seed * 1000 + extra_seed)))
     res = parallel_eval(plugin, cases)
     divergences = []
     if ok_drv:
@@ -563,6 +594,7 @@ def main(plugin) -> int:
             "exhaustive_scope": getattr(plugin, "EXHAUSTIVE_SCOPE", {}).get(args.tier, ""),
             "distribution": dist,
             "partial_scope": list(getattr(plugin, "PARTIAL_SCOPE", [])),
+            "anchored_sources_changed_since_pin": bool(anchors_changed),
         },
         "assumptions": list(getattr(plugin, "ASSUMPTIONS", [])),
         "wall_s": round(time.time() - t0, 2),
